@@ -1,7 +1,7 @@
 #!/usr/bin/env python3
 """Confirm a sub-agent's seeded change (compiles, suite passes, demo fails with / passes without),
 run our checks against it in /repo (apply, check, ALWAYS revert), and file it under /verif/seeded/.
-usage: seedeval.py <Cxx> <n> [--props C01,C02] [--nothorough]"""
+usage: seedeval.py <Cxx> <n> [--props C01,C02] [--nothorough] [--as m]"""
 import json, os, shutil, subprocess, sys, glob
 pid, n = sys.argv[1], sys.argv[2]
 props = [pid]
@@ -45,7 +45,7 @@ if confirmed:
     finally:
         subprocess.run("git -C /repo checkout -- . && git -C /repo clean -fdq", shell=True)
     print("checks:", json.dumps(checks, indent=1))
-dst = f"/verif/seeded/{pid}-{n}"
+dst = f"/verif/seeded/{pid}-{sys.argv[sys.argv.index('--as') + 1] if '--as' in sys.argv else n}"
 os.makedirs(dst, exist_ok=True)
 shutil.copy(patch, dst)
 for d in demos: shutil.copy(d, dst)
